@@ -8,9 +8,12 @@ contracts); a wrong magic byte and a checksum mismatch raise ValueError.  read_r
 through floats: its real body is verified under the standard rounding model (kvc/fpmodel.py) and a
 model of datetime.fromtimestamp; every clause of its contract is discharged except the timestamp
 one, which is refuted (counterexample replayed on the real code) - the known finding: record
-timestamps lose their millisecond part.  Bit flips and
-truncations are detected through the checksum: validated natively (bounded), since "CRC differs
-on different data" is an axiom about CRC-32C, not a theorem."""
+timestamps lose their millisecond part.  Every strict prefix of every well-formed batch raises
+(read_batch/truncated: BufferUnderflow before the checksummed part, ValueError inside it under
+the CRC-prefix axiom assumed in that unit); an arbitrary payload whose CRC-32C is not the stored
+one raises before anything is parsed (read_batch/corrupted-payload).  Bit flips are detected
+through the checksum: validated natively (bounded), since "CRC differs on different data" is an
+axiom about CRC-32C, not a theorem."""
 from __future__ import annotations
 
 import sys
@@ -20,7 +23,8 @@ import z3
 
 from checks import common
 
-UNITS = ("nb_reader", "read_header", "read_record", "read_batch/well-formed", "read_batch/wrong-magic", "read_batch/checksum-mismatch")
+UNITS = ("nb_reader", "read_header", "read_record", "read_batch/well-formed", "read_batch/wrong-magic", "read_batch/checksum-mismatch",
+         "read_batch/truncated", "read_batch/corrupted-payload")
 
 
 def _inline(fn):
@@ -32,7 +36,7 @@ def run_unit(name):
     from checks import l1_serial as L1
     from contracts import records as CR
     from kio.records.schema import RecordBatch
-    from kvc.core import Enc, Lit, Raw, SInt, SRec, equalise, lower, normalise, sym_eq, tobool, total_len, zint
+    from kvc.core import Enc, Lit, Raw, SInt, SRec, as_bytes, blen, equalise, lower, normalise, sym_eq, tobool, total_len, zint
     from kvc.models import Sink, Source
     from kvc.verify import Result, collect, explore_unit, make_interp, path_obligation, run_body
     reg = CR.reader_registry()
@@ -140,15 +144,50 @@ def run_unit(name):
             crc = SInt(ctx.int_const("stored_crc", 0, 2 ** 32 - 1))
             ctx.assume(crc.t != true_crc)
         bl = lower(z3.simplify(plen + 9))
+        models = reg.records_models
+        cut = garbage = None
+        if mode == "corrupted-payload":
+            # the checksummed part replaced by ARBITRARY bytes (any content, any length) whose CRC-32C is not the stored one:
+            # the mismatch must be reported before a single byte of the payload is interpreted
+            garbage = ctx.bytes_const("payload")
+            ctx.assume(z3.And(blen(garbage) >= 0, blen(garbage) + 9 <= 2 ** 31 - 1))
+            crc = SInt(ctx.int_const("stored_crc", 0, 2 ** 32 - 1))
+            ctx.assume(crc.t != CR.crc_term(ctx, [Raw(garbage)]))
+            post = [Raw(garbage)]
+            bl = lower(z3.simplify(blen(garbage) + 9))
         segs = [Enc(("be", 8, True), f["base_offset"]), Enc(("be", 4, True), bl), Enc(("be", 4, True), f["partition_leader_epoch"]),
                 Enc(("be", 1, True), magic), Enc(("be", 4, False), crc)] + post
         tail = ctx.bytes_const("tail")
-        src = Source(ctx, segs + [Raw(tail)])
-        res.replayer = batch_replayer(fn, mode, f, recs, magic, crc if mode == "checksum-mismatch" else None)
-        it = make_interp(ctx, reg, exclude=fn, models=reg.records_models)
+        if mode == "truncated":
+            # every strict prefix of every well-formed batch (cut anywhere, also inside an integer or inside the records)
+            import crc32c as _crc
+            cut = ctx.int_const("cut", 0)
+            ctx.assume(cut < plen + 21)
+            src = Source(ctx, segs, avail=lower(cut))
+
+            def m_crc(interp, fr_, data, *rest):
+                v = CR.m_crc32c(interp, fr_, data, *rest)
+                if isinstance(v, SInt):
+                    ln = zint(total_len(normalise(as_bytes(data))))
+                    # CRC axiom (ASSUMED, not a theorem): a strict prefix of the checksummed bytes does not keep their CRC-32C
+                    ctx.assume(z3.Implies(ln < plen, zint(v) != true_crc))
+                return v
+            models = {_crc.crc32c: m_crc}
+        else:
+            src = Source(ctx, segs + [Raw(tail)])
+        res.replayer = batch_replayer(fn, mode, f, recs, magic, crc if mode in ("checksum-mismatch", "corrupted-payload") else None,
+                                      cut=cut, garbage=garbage)
+        it = make_interp(ctx, reg, exclude=fn, models=models)
         it.symbolic_records = True
         it.loop_handler = CR.batch_loop
         o = run_body(it, fn, [src])
+        if mode == "truncated":
+            # the property asks for "an error instead of a batch" - which error is not prescribed (today: BufferUnderflow
+            # for a cut before the checksummed part, ValueError from the checksum for a cut inside it)
+            ok = z3.BoolVal(o.kind == "raise" and isinstance(o.exc, type) and issubclass(o.exc, Exception))
+            path_obligation(res, ctx, f"{res.unit}/raises-an-error", ok, expected="an exception, never a batch", got=repr(o)[:200])
+            collect(res, ctx)
+            return
         if mode != "well-formed":
             path_obligation(res, ctx, f"{res.unit}/raises-ValueError", z3.BoolVal(o.kind == "raise" and o.exc is ValueError),
                             expected="ValueError", got=repr(o)[:200])
@@ -204,7 +243,7 @@ def record_replayer(fn, r, bts, boff):
     return replay
 
 
-def batch_replayer(fn, mode, f, recs, magic, bad_crc):
+def batch_replayer(fn, mode, f, recs, magic, bad_crc, cut=None, garbage=None):
     """concretise the symbolic batch, encode it with the reference encoder and run the real reader"""
     def replay(ob):
         import io
@@ -213,6 +252,18 @@ def batch_replayer(fn, mode, f, recs, magic, bad_crc):
         from spec import records_spec as RS
         conc = domains.Concretiser(small_model(ob))
         v = {k: conc.value(x) for k, x in f.items()}
+        if mode == "corrupted-payload":
+            payload = conc.bterm(garbage)
+            stored = conc.int_(bad_crc.t)
+            if RS.crc32c_ref(payload) == stored:
+                return {"confirmed": None, "note": "the concretised payload happens to have the stored CRC"}
+            data = (RS.be(8, v["base_offset"]) + RS.be(4, len(payload) + 9) + RS.be(4, v["partition_leader_epoch"]) + RS.be(1, 2)
+                    + RS.be(4, stored, False) + payload)
+            buf = io.BytesIO(data + b"\x33")
+            k, r = native_outcome(lambda: fn(buf))
+            ok = k == "raise" and r is ValueError
+            return {"confirmed": not ok, "input_bytes": data.hex()[:400], "expected": "ValueError (checksum mismatch)",
+                    "observed": {"outcome": k, "value": (repr(r)[:200] if k == "return" else r.__name__), "position": buf.tell()}}
         records = list(conc.value(recs))
         try:
             post = RS.encode_post(v["attributes"], v["last_offset_delta"], v["base_timestamp"], v["max_timestamp"], v["producer_id"],
@@ -222,6 +273,15 @@ def batch_replayer(fn, mode, f, recs, magic, bad_crc):
         crc = RS.crc32c_ref(post) if bad_crc is None else conc.int_(bad_crc.t)
         m = conc.int_(magic.t) if hasattr(magic, "t") else 2
         data = RS.be(8, v["base_offset"]) + RS.be(4, len(post) + 9) + RS.be(4, v["partition_leader_epoch"]) + RS.be(1, m) + RS.be(4, crc, False) + post
+        if mode == "truncated":
+            c = conc.int_(cut)
+            if not 0 <= c < len(data):
+                return {"confirmed": None, "note": f"cut {c} outside the concretised batch of {len(data)} bytes"}
+            buf = io.BytesIO(data[:c])
+            k, r = native_outcome(lambda: fn(buf))
+            ok = k == "raise" and issubclass(r, Exception)
+            return {"confirmed": not ok, "input_bytes": data[:c].hex()[:400], "cut": c, "of": len(data), "expected": "an exception",
+                    "observed": {"outcome": k, "value": (repr(r)[:200] if k == "return" else r.__name__), "position": buf.tell()}}
         buf = io.BytesIO(data + b"\x33")
         k, r = native_outcome(lambda: fn(buf))
         if mode == "well-formed":
@@ -255,7 +315,8 @@ def main(tier):
         "datetime.fromtimestamp(x, UTC) returns the instant N us with |N - x*10^6| <= 1/2 + 2^-33 (CPython rounds half even "
         "after one rounded multiplication of the fractional part); int/const is exact when the quotient is an integer <= 2^53; "
         "record timestamps within 0 .. 9999-12-31T23:59:59.999Z in whole milliseconds",
-        "CRC axiom (not a theorem): damaged or truncated data does not keep its CRC-32C; validated natively on the fixtures",
+        "CRC axiom (not a theorem): damaged or truncated data does not keep its CRC-32C; assumed explicitly in read_batch/truncated "
+        "(a strict prefix of the checksummed bytes has a different CRC-32C) and validated natively on the fixtures",
         "well-formed batch: magic 2, batch_length = |post| + 9 < 2^31, crc = CRC-32C(post), record timestamps <= max_timestamp",
     ]
     return rep.finish("./vf check C18 --tier " + tier)
